@@ -239,7 +239,10 @@ func PredictResponse(handler string, script []string, id int, isHTTP bool, rname
 			ex.Events = append(ex.Events, "event."+rname+".reaccess")
 		case "tokenev":
 			ex.Events = append(ex.Events, "conn."+cid+".token")
-		case "status":
+		case "status", "statusif":
+			if !isHTTP && a == "statusif" {
+				continue // the handler looks at IsHTTP first
+			}
 			if !isHTTP {
 				panicked("str", "call to SetResponseStatus when IsHTTP is false")
 				return ex
